@@ -92,33 +92,13 @@ theorem eval_strip (S : TSem) : ∀ x : Test, S.eval (strip x) = S.eval x := by
   | paren x ih => simpa [strip, TSem.eval] using ih
   | _ => rfl
 
-theorem qi_strip (S : TSem) : ∀ x : Test, x.QuoteInsensitive S → (strip x).QuoteInsensitive S := by
-  intro x
-  induction x with
-  | paren x ih => intro h; exact ih h
-  | _ => intro h; exact h
+theorem value_unqW (S : TSem) (w : TWord) : S.value (unqW w) = S.value w := by
+  cases w <;> rfl
 
-theorem value_unqW (S : TSem) (w : TWord) (h : w.QuoteInsensitive S) :
-    S.value (unqW w) = S.value w := by
-  cases w with
-  | quoted p => simp only [TWord.QuoteInsensitive] at h; simp [unqW, TSem.value, h]
-  | bare p => rfl
-  | other w => rfl
-
-theorem qi_unqW (S : TSem) (w : TWord) : (unqW w).QuoteInsensitive S := by
-  cases w <;> simp [unqW, TWord.QuoteInsensitive]
-
-theorem eval_unquote (S : TSem) (x : Test) (h : x.QuoteInsensitive S) :
-    S.eval (unquote x) = S.eval x := by
+theorem eval_unquote (S : TSem) (x : Test) : S.eval (unquote x) = S.eval x := by
   cases x with
-  | word w => simp only [unquote, TSem.eval, value_unqW S w h]
+  | word w => simp only [unquote, TSem.eval, value_unqW S w]
   | _ => rfl
-
-theorem qi_unquote (S : TSem) (x : Test) (h : x.QuoteInsensitive S) :
-    (unquote x).QuoteInsensitive S := by
-  cases x with
-  | word w => exact qi_unqW S w
-  | _ => exact h
 
 theorem bne_nil (l : Bytes) : (l != []) = !(l == []) := by cases l <;> rfl
 
@@ -144,78 +124,34 @@ theorem eval_removeNegate (S : TSem) (x : Test) : S.eval (removeNegate x) = S.ev
     | _ => rfl
   | _ => rfl
 
-theorem qi_removeNegate (S : TSem) (x : Test) (h : x.QuoteInsensitive S) :
-    (removeNegate x).QuoteInsensitive S := by
-  cases x with
-  | not y =>
-    cases y with
-    | un yop w =>
-      simp only [removeNegate]
-      repeat' split
-      all_goals exact h
-    | not x => exact h
-    | bin yop a b =>
-      simp only [removeNegate]
-      repeat' split
-      all_goals exact h
-    | _ => exact h
-  | _ => exact h
-
-theorem eval_walk (S : TSem) : ∀ (f : Nat) (x : Test), x.QuoteInsensitive S →
-    S.eval (walk f x) = S.eval x ∧ (walk f x).QuoteInsensitive S := by
+theorem eval_walk (S : TSem) : ∀ (f : Nat) (x : Test), S.eval (walk f x) = S.eval x := by
   intro f
   induction f with
-  | zero => intro x h; exact ⟨rfl, h⟩
+  | zero => intro x; rfl
   | succ f ih =>
-    intro x h
+    intro x
     cases x with
-    | word w => exact ⟨rfl, h⟩
-    | paren x =>
-      have h1 := qi_removeNegate S _ (qi_strip S x h)
-      obtain ⟨e, q⟩ := ih _ h1
-      refine ⟨?_, q⟩
-      simp only [walk, TSem.eval, e, eval_removeNegate, eval_strip]
-    | not x =>
-      have h1 := qi_unquote S x h
-      obtain ⟨e, q⟩ := ih _ h1
-      refine ⟨?_, q⟩
-      simp only [walk, TSem.eval, e, eval_unquote S x h]
-    | un op w =>
-      refine ⟨?_, qi_unqW S w⟩
-      simp only [walk, TSem.eval, value_unqW S w h]
-    | logic c x y =>
-      obtain ⟨hx, hy⟩ := h
-      have h1 := qi_removeNegate S _ (qi_unquote S x hx)
-      have h2 := qi_removeNegate S _ (qi_unquote S y hy)
-      obtain ⟨e1, q1⟩ := ih _ h1
-      obtain ⟨e2, q2⟩ := ih _ h2
-      refine ⟨?_, q1, q2⟩
-      simp only [walk, TSem.eval, e1, e2, eval_removeNegate, eval_unquote S x hx, eval_unquote S y hy]
+    | word w => rfl
+    | paren x => simp only [walk, TSem.eval, ih, eval_removeNegate, eval_strip]
+    | not x => simp only [walk, TSem.eval, ih, eval_unquote]
+    | un op w => simp only [walk, TSem.eval, value_unqW]
+    | logic c x y => simp only [walk, TSem.eval, ih, eval_removeNegate, eval_unquote]
     | bin op a b =>
-      obtain ⟨ha, hb⟩ := h
-      constructor
-      · simp only [walk]
-        by_cases hs : op = tsMatchShort
-        · subst hs
-          simp [TSem.eval, noUnquoteRhs, tsMatch, tsMatchShort, value_unqW S a ha]
-        · simp only [hs, if_false]
-          by_cases hn : noUnquoteRhs op = true
-          · simp only [hn, if_true, TSem.eval, value_unqW S a ha]
-          · have hn' : noUnquoteRhs op = false := by simpa using hn
-            have h4 : op ≠ tsMatch := by intro h; subst h; simp [noUnquoteRhs] at hn'
-            have h5 : op ≠ tsNoMatch := by intro h; subst h; simp [noUnquoteRhs] at hn'
-            have h7 : op ≠ tsReMatch := by intro h; subst h; simp [noUnquoteRhs] at hn'
-            simp [hn', TSem.eval, value_unqW S a ha, value_unqW S b hb, h4, h5, h7, hs]
-      · simp only [walk]
-        refine ⟨qi_unqW S a, ?_⟩
-        generalize (if op = tsMatchShort then tsMatch else op) = op'
-        by_cases hn : noUnquoteRhs op' = true
-        · simpa [hn] using hb
-        · simpa [hn] using qi_unqW S b
+      simp only [walk]
+      by_cases hs : op = tsMatchShort
+      · subst hs
+        simp [TSem.eval, noUnquoteRhs, tsMatch, tsMatchShort, value_unqW]
+      · simp only [hs, if_false]
+        by_cases hn : noUnquoteRhs op = true
+        · simp only [hn, if_true, TSem.eval, value_unqW]
+        · have hn' : noUnquoteRhs op = false := by simpa using hn
+          have h4 : op ≠ tsMatch := by intro h; subst h; simp [noUnquoteRhs] at hn'
+          have h5 : op ≠ tsNoMatch := by intro h; subst h; simp [noUnquoteRhs] at hn'
+          have h7 : op ≠ tsReMatch := by intro h; subst h; simp [noUnquoteRhs] at hn'
+          simp [hn', TSem.eval, value_unqW, h4, h5, h7, hs]
 
-theorem eval_top (S : TSem) (x : Test) (h : x.QuoteInsensitive S) : S.eval (top x) = S.eval x := by
-  have h1 := qi_removeNegate S _ (qi_strip S x h)
-  rw [top, (eval_walk S _ _ h1).1, eval_removeNegate, eval_strip]
+theorem eval_top (S : TSem) (x : Test) : S.eval (top x) = S.eval x := by
+  rw [top, eval_walk, eval_removeNegate, eval_strip]
 
 end TestSem
 
